@@ -26,6 +26,20 @@ func init() {
 	cli.Register("syncer sync", syncRun)
 }
 
+// flakyKV fails the next Save when armed (the write of the history index is the only Save the buffer makes).
+type flakyKV struct {
+	kv.Base
+	failNext, failed bool
+}
+
+func (k *flakyKV) Save(key, value string) error {
+	if k.failNext {
+		k.failNext, k.failed = false, true
+		return fmt.Errorf("injected write failure")
+	}
+	return k.Base.Save(key, value)
+}
+
 func rec(i int) *core.RegionInfo {
 	return core.NewRegionInfo(&metapb.Region{Id: uint64(i + 1000), StartKey: []byte(fmt.Sprintf("%08d", i)), EndKey: []byte(fmt.Sprintf("%08d", i+1))}, nil)
 }
@@ -43,7 +57,7 @@ func history(args map[string]string) error {
 	}
 	defer w.Close()
 	for bi, beh := range behs {
-		store := kv.NewMemoryKV()
+		store := &flakyKV{Base: kv.NewMemoryKV()}
 		b := syncer.VerifNewHistoryBuffer(capa, store)
 		observe := func(ev trace.Ev) {
 			idx := int(b.NextIndex())
@@ -61,17 +75,37 @@ func history(args map[string]string) error {
 			}
 			ev["from"] = qs
 		}
-		ev0 := trace.Ev{"beh": bi, "mode": "history", "cap": capa}
+		ev0 := trace.Ev{"beh": bi, "mode": "history", "cap": capa, "pfail": false}
 		observe(ev0)
 		w.Reset(ev0)
 		for si, st := range beh {
 			if si == 0 {
 				continue
 			}
-			ev := trace.Ev{"ev": st.Action, "beh": bi, "step": si, "i": 0, "before": int(b.NextIndex())}
+			ev := trace.Ev{"ev": st.Action, "beh": bi, "step": si, "i": 0, "before": int(b.NextIndex()), "pfail": false}
 			switch st.Action {
 			case "Record":
+				// Record(TRUE): the write of the index that is due in this step fails
+				store.failNext, store.failed = st.Str(0) == "true", false
 				b.Record(rec(int(b.NextIndex())))
+				ev["pfail"] = store.failed
+				store.failNext = false
+			case "Records":
+				// Records(n, f): n Record steps, each one logged; with f the one write of the index that falls due fails
+				store.failNext = st.Str(1) == "true"
+				for k := 0; k < st.Num(0); k++ {
+					e := trace.Ev{"ev": "Record", "beh": bi, "step": si, "i": 0, "before": int(b.NextIndex()), "pfail": false}
+					store.failed = false
+					b.Record(rec(int(b.NextIndex())))
+					e["pfail"] = store.failed
+					if k < st.Num(0)-1 {
+						observe(e)
+						w.Emit(e)
+					} else {
+						ev = e
+					}
+				}
+				store.failNext = false
 			case "Reset":
 				ev["i"] = st.Num(0)
 				b.ResetWithIndex(uint64(st.Num(0)))
